@@ -23,14 +23,14 @@ BUDGET = {
     "quick": {"cases": 9600, "seconds": 90, "shards": 8},
     "thorough": {"cases": 160000, "seconds": 900, "shards": 16},
 }
-REQUIRED_OBS = ["exhaustive_small_graph_cases", "hook_tree_checked", "boundary_tiefree_checked", "boundary_sandwich_checked", "semi_cases", "mst_multiset_compared"]
+REQUIRED_OBS = ["signed_weight_cases", "exhaustive_small_graph_cases", "hook_tree_checked", "boundary_tiefree_checked", "boundary_sandwich_checked", "semi_cases", "mst_multiset_compared"]
 MIN_NONTRIVIAL = 100
 
 
 def generate(rng, tier, idx):
     semi = idx % 3 == 2
     metrics = gen.SYMMETRIC_DISSIMILARITIES if idx % 2 else gen.SAFE_METRICS
-    return supcase.gen_case(rng, tier, semi=semi, metrics=metrics, force_tie_free=(idx % 5 == 0), nq=1)
+    return supcase.gen_case(rng, tier, semi=semi, metrics=metrics, force_tie_free=(idx % 5 == 0), nq=1, extra_kinds=("MS", "MS"))
 
 
 def check(case):
@@ -50,6 +50,9 @@ def check(case):
     Wall = supcase.weights(o)
     W = Wall[:L, :L]
     why = supcase.sane_weights(W)
+    if why == "weights-negative" and (case.get("pre") or {}).get("kind") == "MS":
+        why = None                      # C02 quantifies over all symmetric weight assignments, signed ones included
+        res.see("signed_weight_cases")
     if why:
         return res.reject(why)
     Y = [int(y) for y in case["Y"]]
